@@ -708,7 +708,10 @@ pub fn realise(plan: &Plan) -> Vec<Rec> {
         let mut r = Rec {
             trace_hi: 7,
             trace_lo: i as u64 + 1,
-            span: (i as u64 + 1) | if fine & 1 == 1 { 1 << 63 } else { 0 },
+            // span ids repeat across traces (one span recorded under parents in several traces is
+            // reported once per trace with the same span id): every 8th record shares the id of
+            // the record before it
+            span: ((if (fine >> 5) % 8 == 0 && i > 0 { i as u64 } else { i as u64 + 1 }) | if fine & 1 == 1 && (fine >> 5) % 8 != 0 { 1 << 63 } else { 0 }),
             parent: *fine as u64,
             begin: 1_700_000_000_000_000_000 + i as u64 * 1000,
             dur: 1000 + *fine as u64,
